@@ -37,6 +37,22 @@ SYSROOT = os.path.join(WORK, "miri-sysroot" + ("-" + TARGET if TARGET else ""))
 SRC = os.path.join(WORK, "sysroot-src" + ("-" + TARGET if TARGET else ""), "rust", "library")
 STAMP = os.path.join(SYSROOT, ".verif-stamp")
 
+STEP = """
+// volute-verif: wall-clock step fault: seconds to subtract from the wall clock at virtual time `now_ns`.
+fn verif_wall_step(now_ns: u64) -> u64 {
+    use crate::sync::atomic::{AtomicU64, Ordering};
+    static AT: AtomicU64 = AtomicU64::new(u64::MAX);
+    static BACK: AtomicU64 = AtomicU64::new(0);
+    let mut at = AT.load(Ordering::Relaxed);
+    if at == u64::MAX {
+        at = crate::env::var("VERIF_WALL_STEP_AT_NS").ok().and_then(|s| s.parse::<u64>().ok()).unwrap_or(u64::MAX - 1);
+        BACK.store(crate::env::var("VERIF_WALL_STEP_BACK_S").ok().and_then(|s| s.parse::<u64>().ok()).unwrap_or(0), Ordering::Relaxed);
+        AT.store(at, Ordering::Relaxed);
+    }
+    if now_ns >= at { BACK.load(Ordering::Relaxed) } else { 0 }
+}
+"""
+
 OLD_INSTANT = """    pub fn now() -> Instant {
         // https://pubs.opengroup.org/onlinepubs/9799919799/functions/clock_getres.html
         Instant { t: Timespec::now(Self::CLOCK_ID) }
@@ -53,8 +69,11 @@ OLD_SYSTIME = """    pub fn now() -> SystemTime {
 """
 NEW_SYSTIME = """    pub fn now() -> SystemTime {
         // volute-verif: wall-clock time = the simulator's virtual monotonic clock + a fixed epoch offset
+        // (minus VERIF_WALL_STEP_BACK_S seconds once the virtual time has reached VERIF_WALL_STEP_AT_NS: a wall clock
+        // that is stepped backwards while the program runs; Instant stays monotonic)
         let m = verif_quantize(Timespec::now(libc::CLOCK_MONOTONIC));
-        SystemTime { t: Timespec::new(m.tv_sec + 1_790_000_000, m.tv_nsec.as_inner() as i64).unwrap_or(m) }
+        let back = verif_wall_step((m.tv_sec as u64).wrapping_mul(1_000_000_000).wrapping_add(m.tv_nsec.as_inner() as u64)) as i64;
+        SystemTime { t: Timespec::new(m.tv_sec + 1_790_000_000 - back, m.tv_nsec.as_inner() as i64).unwrap_or(m) }
     }
 """
 APPEND = """
@@ -74,7 +93,7 @@ fn verif_quantize(t: Timespec) -> Timespec {
     let fl = total - total.rem_euclid(q as i128);
     Timespec::new((fl / 1_000_000_000) as i64, (fl % 1_000_000_000) as i64).unwrap_or(t)
 }
-"""
+""" + STEP
 
 
 # the same two functions for Windows targets (std/src/sys/time/windows.rs): Instant::now() is
@@ -92,7 +111,7 @@ WIN_OLD_SYSTIME = """    pub fn now() -> SystemTime {
 WIN_NEW_SYSTIME = """    pub fn now() -> SystemTime {
         // volute-verif: wall-clock time = the simulator's virtual monotonic clock + a fixed epoch offset
         let ns = Instant::now().t.as_nanos() as u64;
-        SystemTime::from_intervals(((11_644_473_600u64 + 1_790_000_000u64) * (INTERVALS_PER_SEC as u64) + ns / 100) as i64)
+        SystemTime::from_intervals(((11_644_473_600u64 + 1_790_000_000u64 - verif_wall_step(ns)) * (INTERVALS_PER_SEC as u64) + ns / 100) as i64)
     }
 """
 WIN_APPEND = """
@@ -107,7 +126,7 @@ fn verif_quantize_ns(t: u64) -> u64 {
     }
     if q == 0 { t } else { t - t % q }
 }
-"""
+""" + STEP
 
 
 def sh(cmd, **kw):
